@@ -48,7 +48,7 @@ QUIRK_CTORS = ["ecn", "df", "nzId", "zeroId", "nzMbz", "flow", "zeroSeq", "nzAck
 ENUMS = {   # python enum class name -> (lean type, {member: ctor})
     "TCPMatchType": ("MatchType", {"EXACT": "exact", "FUZZY_TTL": "fuzzyTtl", "FUZZY_QUIRKS": "fuzzyQuirks"}),
     "WindowType": ("WinType", {"NORMAL": "normal", "ANY": "any", "MOD": "mod", "MSS": "mss", "MTU": "mtu"}),
-    "Direction": ("Dir", {"CLIENT_TO_SERVER": "c2s", "SERVER_TO_CLIENT": "s2c"}),
+    "Direction": ("Dir", {"CLIENT_TO_SERVER": "req", "SERVER_TO_CLIENT": "resp"}),
 }
 
 
@@ -1524,6 +1524,21 @@ def translate_target(t):
     fdef = find_function(tree, t["func"])
     if fdef is None:
         raise NotTranslatable(f"function {t['func']} not found in {t['module']}")
+    # what the module exports under that name must be the function this `def` defines, not a wrapper put around it later
+    # (`f = lru_cache(f)`, a decorator applied by assignment): the text would no longer say what a call does
+    obj = mod
+    for part in t["func"].split("."):
+        obj = inspect.getattr_static(obj, part, None)
+        if obj is None:
+            break
+    raw = obj
+    if isinstance(raw, (staticmethod, classmethod)):
+        raw = raw.__func__
+    if isinstance(raw, property):
+        raw = raw.fget
+    import types as _types
+    if not isinstance(raw, _types.FunctionType) or raw.__code__.co_firstlineno not in range(fdef.lineno - len(fdef.decorator_list) - 1, fdef.lineno + 1):
+        raise NotTranslatable(f"{t['func']} as exported is not the function defined in the source text (wrapped or rebound)")
     fn = Fn(t, fdef, vars(mod))
     body = fn.translate()
     psig = " ".join(f"({p} : {ty})" for p, ty in t["params"])
